@@ -233,13 +233,11 @@ def spec_hook_run(case, c):
                     if any(pi_norm(x['pi']) for x in rest):
                         if any(x['deco'] is not None and opt_of(x, 'type_safe', False) for x in rest):
                             checked[0] = True
-                            out.setdefault('sets_at_check', list(out['sets']))
                         e = run(rest)
                         if e is not None:
                             return e
                     elif any(x['deco'] is not None and opt_of(x, 'type_safe', False) for x in rest):
                         checked[0] = True                             # the base's __post_init__ is the checking one
-                        out.setdefault('sets_at_check', list(out['sets']))
                     else:
                         return 12                                     # 'super' object has no attribute '__post_init__'
             if pi['raise'] is not None:
@@ -862,7 +860,8 @@ def judge(case, w, model):
         if code == 98:
             continue                       # the operation had no receiver on the implementation side
         jr = journal_of(i_obs)
-        # a field without value (97: init=False, no default, no hook assigns it) does not conform
+        # a field without value (97: init=False, no default, no hook assigns it) does not conform: PedanticTypeCheckException
+        # (finding C10-initfalse-nodefault, fixed)
         want = 'accept' if all(x == 1 for x in verd) else ('reject' if any(x in (2, 97) for x in verd) else 'any')
         if op[0] == 'validate':
             if (want == 'accept' and code != 0) or (want == 'reject' and code != 1):
@@ -936,28 +935,16 @@ def override_matcher(finding, payload):
             and v.get('path') in ('ctor', 'copy', 'deep') and any(x in (2, 97) for x in (v.get('verdicts') or [])))
 
 
-def novalue_matcher(finding, payload):
-    """C10-initfalse-nodefault: a field that holds no value when the check runs (init=False, no default, no __post_init__ assigns
-    it): validate_types' own getattr raises AttributeError where the property asks for PedanticTypeCheckException"""
-    if finding.get('matcher', {}).get('id') != 'init_false_field_without_value':
-        return False
-    case, v = payload['case'], payload.get('violation', {})
-    cls = v.get('cls')
-    if cls is None or v.get('outcome') != 12:
-        return False
-    hk = spec_hook_run(case, cls)                        # the hooks that run for this class (Python's MRO / super() rules)
-    if 97 in (v.get('verdicts') or []):
-        assigned = hk['sets']                            # never assigned
-    elif hk['mid']:
-        assigned = hk.get('sets_at_check', hk['sets'])   # assigned only after a type-safe base's __post_init__ had been called
-    else:
-        return False
-    unset = [f for f in merged_fields(case, cls) if not f['init'] and f['default'] is None and f['name'] not in assigned]
-    return bool(unset) and (v.get('path') in ('ctor', 'copy', 'deep') or v.get('op', [None])[0] == 'validate')
+def fixed_symptom(finding, v):
+    """the symptom of a repaired finding, looked for when its witness is replayed"""
+    if finding['id'] == 'C10-initfalse-nodefault':
+        # a field without value (verdict 97) and anything but PedanticTypeCheckException
+        return 97 in (v.get('verdicts') or []) and v.get('outcome') != 1
+    return True
 
 
 def c10_matcher(finding, payload):
-    return ctx_matcher(finding, payload) or override_matcher(finding, payload) or novalue_matcher(finding, payload)
+    return ctx_matcher(finding, payload) or override_matcher(finding, payload)
 
 
 def unfrozen_matcher(finding, payload):
@@ -1033,6 +1020,9 @@ def run(pid, tier, seed, replay=None):
         c = f['witness']
         impl, model = evaluate(ck, [c])
         dis, v10, v11 = judge(c, impl[0], model[0])
+        if f['status'] == 'fixed':
+            # a repaired defect has returned when its witness violates the property again with the recorded symptom
+            return any(fixed_symptom(f, v) for v in mine(v10, v11))
         return any(matcher_fn(f, {'case': c, 'violation': v}) for v in mine(v10, v11))
     ck.replay_known_findings(still_fails)
 
